@@ -108,7 +108,8 @@ def bounded(params):
     tier, seed = params.get("tier", "quick"), int(params.get("seed", 0))
     rng = random.Random(seed)
     failures, evals, nontriv = [], 0, 0
-    shapes = [(5,), (2, 3), (2, 2, 2)]
+    # incl. volumes / images with a singleton axis: the default backend goes by the NUMBER OF AXES (ndim), not by their extents
+    shapes = [(5,), (2, 3), (2, 2, 2), (1, 2, 3), (2, 1, 3), (2, 3, 1), (1, 5)]
     for shape in shapes:
         n = int(np.prod(shape))
         arrs = list(itertools.product(range(3), repeat=n))
